@@ -9,6 +9,7 @@ NARY = ("Add", "Multiply")
 
 
 import ast as _ast
+import os
 
 _ARITY_CACHE = {}
 
@@ -158,6 +159,8 @@ def arity_thresholds(prog):
 
 def arities(tier, prog=None):
     k = 3 if tier == "quick" else 4
+    if os.environ.get("PYVC_K"):
+        k = int(os.environ["PYVC_K"])          # (experiments only; the registered commands do not set it)
     if prog is not None:
         # the code branches on an arity threshold beyond K: extend K past it (capped)
         k = max(k, min(arity_thresholds(prog) + 1, 7))
